@@ -17,6 +17,7 @@ import os
 
 VOCAB_FILE = os.path.join(os.path.dirname(os.path.abspath(__file__)), "vocabulary.json")
 MAX_BLOCKS = 80
+MAX_BLOCKS_SINGLE = 1500
 _vocab = None
 
 
@@ -94,6 +95,22 @@ def _renumber(x, lo, bo):
     return d
 
 
+def _subst_local(x, old, new):
+    """replace the base local `old` by `new` in every place of a JSON fragment (in place)"""
+    if isinstance(x, list):
+        for y in x:
+            _subst_local(y, old, new)
+    elif isinstance(x, dict):
+        if isinstance(x.get("l"), int) and x["l"] == old and ("p" in x or x.get("k") in ("live", "dead")):
+            x["l"] = new
+        for k, v in x.items():
+            if k == "p" and isinstance(v, list):
+                for pe in v:
+                    if isinstance(pe, dict) and pe.get("i") == old and set(pe.keys()) <= {"i", "ty"}:
+                        pe["i"] = new
+            _subst_local(v, old, new)
+
+
 def _inline_one(caller, bidx, callee):
     """splice `callee` into `caller` at the call terminating block bidx"""
     call = caller["blocks"][bidx]["term"]
@@ -107,11 +124,17 @@ def _inline_one(caller, bidx, callee):
     target = call.get("t")
     unwind = call.get("unwind")
     dest = call["dest"]
+    # a destination that is a plain local *is* the helper's return place (no intermediate copy: the values the
+    # helper returns stay visible as definitions of the caller's own local, e.g. of `_0`)
+    direct = not dest["p"]
     for blk in callee["blocks"]:
         nb = _renumber(blk, lo, bo)
+        if direct:
+            _subst_local(nb, lo, dest["l"])
         t = nb["term"]
         if t["k"] == "return":
-            nb["stmts"].append({"k": "assign", "lhs": copy.deepcopy(dest), "rv": {"k": "use", "op": {"mv": {"l": lo, "p": []}}}, "sp": sp, "mac": None, "inl": callee["def"]})
+            if not direct:
+                nb["stmts"].append({"k": "assign", "lhs": copy.deepcopy(dest), "rv": {"k": "use", "op": {"mv": {"l": lo, "p": []}}}, "sp": sp, "mac": None, "inl": callee["def"]})
             if target is None:
                 nb["term"] = {"k": "unreachable", "sp": sp, "mac": None}
             else:
@@ -133,9 +156,20 @@ def inline_helpers(facts, rounds=2):
     for b in facts["bodies"]:
         by_cdef.setdefault(b["cdef"], b)
     helpers = {}
+    # a helper with a single call site in the whole crate (a trait method that merely delegates to an inherent
+    # `poll_inner`, a destructor that delegates to `drop_slots`) is inlined whatever its size
+    ncalls = {}
+    for b in facts["bodies"]:
+        for blk in b["blocks"]:
+            t = blk["term"]
+            if t["k"] == "call":
+                cd = _callee_cdef(t)
+                if cd:
+                    ncalls[cd] = ncalls.get(cd, 0) + 1
     for b in facts["bodies"]:
         if b["kind"] in ("Fn", "AssocFn") and b["def"] not in vocab and b.get("impl_trait") is None \
-                and len(b["blocks"]) <= MAX_BLOCKS and not _is_coroutine_ctor(b):
+                and (len(b["blocks"]) <= MAX_BLOCKS or (ncalls.get(b["cdef"], 0) == 1 and len(b["blocks"]) <= MAX_BLOCKS_SINGLE)) \
+                and not _is_coroutine_ctor(b):
             helpers[b["cdef"]] = b
     if not helpers:
         return []
